@@ -21,21 +21,34 @@ def OPS(x, y, signed=False):
     return {0: lt, 1: le, 2: x == y, 3: x != y, 4: z3.Not(le), 5: z3.Not(lt)}
 
 
+def FOPS(x, y):
+    """IEEE-754 comparisons, as Python's float comparisons are"""
+    return {0: z3.fpLT(x, y), 1: z3.fpLEQ(x, y), 2: z3.fpEQ(x, y), 3: z3.Not(z3.fpEQ(x, y)), 4: z3.fpGT(x, y), 5: z3.fpGEQ(x, y)}
+
+
+def is_pyfloat(c, st, o):
+    return py_type(c, st, o) == c.ex.global_addr('PyFloat_Type')
+
+
 @R.model('PyObject_RichCompare', "for two int objects (incl. bool): Py_True / Py_False according to the comparison of "
-                                 "their values; for other objects: arbitrary code (havoc), any result")
+                                 "their values; for two float objects: according to the IEEE-754 comparison of their "
+                                 "values; for other objects: arbitrary code (havoc), any result")
 def _richcompare(ex, st, args, n):
+    from .ints import float_val
     a, b, op = args
     c = Ctx(ex, {}, st)
     both = z3.And(is_long(c, st, a), is_long(c, st, b))
+    bothf = z3.And(is_pyfloat(c, st, a), is_pyfloat(c, st, b))
     st.assume(pyint_axiom(a))
     x, y = int_w(a), int_w(b)
     t, f = ex.global_addr('_Py_TrueStruct'), ex.global_addr('_Py_FalseStruct')
     table = OPS(x, y, signed=True)
+    ftable = FOPS(float_val(a), float_val(b))
     res = ex.fresh('richcmp_other', B64)
     for k in range(5, -1, -1):
-        res = z3.If(z3.And(both, op == k), z3.If(table[k], t, f), res)
+        res = z3.If(z3.And(both, op == k), z3.If(table[k], t, f), z3.If(z3.And(bothf, op == k), z3.If(ftable[k], t, f), res))
     from .base import _havoc_unless
-    _havoc_unless(ex, st, both, 'PyObject_RichCompare')
+    _havoc_unless(ex, st, z3.Or(both, bothf), 'PyObject_RichCompare')
     return res
 
 
@@ -73,12 +86,19 @@ def int_cdata(c, st, o):
     return z3.And(is_cdata(c, st, o), is_int_ctype(c, st, ct), z3.Not(flag(flags, CT_IS_BOOL)))
 
 
+def float_cdata(c, st, o):
+    """o is a cdata of type float or double (not long double)"""
+    ct, data = cdata_fields(c, st, o)
+    size, flags = ctype_fields(c, st, ct)
+    return z3.And(is_cdata(c, st, o), flag(flags, CT_PRIMITIVE_FLOAT), (flags & 0x40000) == 0)
+
+
 def cdata_ok(c, st, o):
     ct, data = cdata_fields(c, st, o)
     size, flags = ctype_fields(c, st, ct)
     return z3.Implies(is_cdata(c, st, o),
                       z3.And(c.valid(o, 40), ctype_wf(c, st, ct),
-                             z3.Implies(is_int_ctype(c, st, ct), c.valid(data, size))))
+                             z3.Implies(z3.Or(is_int_ctype(c, st, ct), flag(flags, CT_PRIMITIVE_FLOAT)), c.valid(data, size))))
 
 
 @R.add
@@ -103,14 +123,19 @@ class cdata_richcompare(Contract):
         wint = is_long(c, st, w)
         return vp, wp, vi, wi, wint
 
-    def scope(self, c):
+    def both_float(self, c):
+        return z3.And(float_cdata(c, c.old, c['v']), float_cdata(c, c.old, c['w']))
+
+    def in_scope(self, c):
         vp, wp, vi, wi, wint = self.cases(c)
-        return [('pointer-like operands, or integer cdata against integer cdata / Python int',
-                 z3.Or(vp, wp, z3.And(vi, z3.Or(wi, wint))))]
+        return z3.Or(vp, wp, z3.And(vi, z3.Or(wi, wint)), self.both_float(c))
+
+    def scope(self, c):
+        return [('pointer-like operands, or integer cdata against integer cdata / Python int, or float/double cdata '
+                 'against float/double cdata', self.in_scope(c))]
 
     def frame(self, c):
-        vp, wp, vi, wi, wint = self.cases(c)
-        return Frame(err=True, havoc_if=z3.Not(z3.Or(vp, wp, z3.And(vi, z3.Or(wi, wint)))))
+        return Frame(err=True, havoc_if=z3.Not(self.in_scope(c)))
 
     @property
     def loops(self):
@@ -148,6 +173,17 @@ class cdata_richcompare(Contract):
                 out.append(("integer cdata (%d bytes) against a Python int: a %s b exactly as the Python value it converts to"
                             % (a, nm), z3.Implies(z3.And(vi, wint), c.result == z3.If(ip[k], t, f)),
                             CaseOf([(c['op'], BV(k, 32)), (vsz, BV(a, 64))])))
+        from .ints import stored_float
+        fv = stored_float(c, st, va, vsz)
+        fw = stored_float(c, st, wa, wsz)
+        fops = FOPS(fv, fw)
+        for k, nm in enumerate(('<', '<=', '==', '!=', '>', '>=')):
+            for a in (4, 8):
+                for b in (4, 8):
+                    out.append(("float/double cdata (%d bytes) against float/double cdata (%d bytes): a %s b exactly as the "
+                                "Python floats they convert to (IEEE-754: -0.0 == 0.0, nan != nan)" % (a, b, nm),
+                                z3.Implies(self.both_float(c), c.result == z3.If(fops[k], t, f)),
+                                CaseOf([(c['op'], BV(k, 32)), (vsz, BV(a, 64)), (wsz, BV(b, 64))])))
         out.append(('pointer-like against anything else: NotImplemented',
                     z3.Implies(z3.Xor(vp, wp), c.result == ni)))
         return out
